@@ -31,6 +31,12 @@ T = {
  'C03-b': dict(property='C03', pkg='gds21', change='parse_datetime subtracts 1900 from year fields >= 1900', needs='a BGNLIB/BGNSTR date whose year field is in 1900..=32767', result='', by=''),
  'C09-a': dict(property='C09', pkg='layout21tetris', change='resolve_instance_place: separation negated when (offset_side && !reflected(side_axis)) instead of by side',
    needs='placed instance reflected in the side axis, side Left or Bottom, non-zero separation', result='', by=''),
+ 'C16-a': dict(property='C16', pkg='layout21raw', change='import_dist: fraction test rewritten as `scaled > scaled.trunc()`, which never fires for negative values',
+   needs='a negative LEF number with a non-zero digit past the fourth decimal place (-1.23456 imports as -12345 instead of an error)', result='', by=''),
+ 'C16-regress-scale': dict(property='C16', pkg='layout21raw', change='reverse of fix fd2d7ff (import_dist returns the unscaled mantissa again) — not an independent seed: a regression of a repaired defect',
+   needs='any decimal written with digits after the point', result='', by=''),
+ 'C16-regress-y': dict(property='C16', pkg='layout21raw', change='reverse of fix d594ef0 (import_point converts pt.x twice again) — a regression of a repaired defect',
+   needs='any point with x != y', result='', by=''),
  'C14-a': dict(property='C14', pkg='layout21raw', change='raw::DepOrder::push rewritten as an iterative work-list that appends the reversed pre-order',
    needs='a library listing a user before a shared cell, with the user instantiating mid before leaf and mid instantiating leaf', result='', by=''),
  'C07-a': dict(property='C07', pkg='layout21raw', change='GdsImporter::import_boundary: rectangle detection checks only three of the four edges',
